@@ -199,6 +199,53 @@ func checkC10(c *Ctx) {
 		r.OK("C10.G5", "census", "", fmt.Sprintf("%d functions scanned: no send, receive or select on a package-level channel", len(funcs)))
 	}
 
+	// G6: a package-level variable holding a dependency's object (a JSON-LD processor, options carrying a document loader, a
+	// compiler, a client) shares whatever mutable state that object has inside the dependency, where this analysis cannot see
+	// writes: only plain data tables and the types the module defines itself may live at package level
+	r.Rule("C10.G6", "no package-level variable holds an object of a dependency (its internal state would be shared by all calls)", 1)
+	depGlobals := 0
+	for _, g := range globals {
+		dep := dependencyTypeIn(elemOfPointer(g), 0)
+		if dep == "" {
+			continue
+		}
+		used := false
+		for _, a := range accessesOf(p, ms, g, funcs) {
+			_ = a
+			used = true
+		}
+		if !used {
+			continue
+		}
+		depGlobals++
+		r.Bad("C10.G6", globalKey(g), p.Pos(g.Pos()), "the variable holds a "+dep+" shared by every call in reach of the entry points: state the dependency keeps inside it (caches, loaders, buffers) is written by concurrent calls without any synchronisation this module controls, and one call observes what another one loaded")
+	}
+	if depGlobals == 0 {
+		r.OK("C10.G6", "census", "", fmt.Sprintf("%d package-level variables: none holds an object of a dependency", len(globals)))
+	}
+	// G7: registries of the dependencies are process-wide state too
+	r.Rule("C10.G7", "no process-wide registry of a dependency is written in reach of the entry points", 1)
+	regs := 0
+	for _, f := range funcs {
+		for _, b := range f.Blocks {
+			for _, ins := range b.Instrs {
+				ci, ok := ins.(ssa.CallInstruction)
+				if !ok {
+					continue
+				}
+				n := funcFullName(ssaCalleeObj(ci))
+				short := n[strings.LastIndex(n, ".")+1:]
+				if strings.HasPrefix(n, opaPath+"/") && (strings.HasPrefix(short, "RegisterBuiltin") || short == "RegisterPlugin" || short == "RegisterStore") {
+					regs++
+					r.Bad("C10.G7", FuncKey(f)+"#"+short, p.Pos(ins.Pos()), n+" writes a registry that the whole process shares: a compilation changes what the profiles already compiled mean, and concurrent compilations and evaluations race on it")
+				}
+			}
+		}
+	}
+	if regs == 0 {
+		r.OK("C10.G7", "census", "", "no RegisterBuiltin* / RegisterPlugin call in reach of the entry points")
+	}
+
 	// G3
 	gos, pools, unsafes := 0, 0, 0
 	for _, f := range funcs {
@@ -237,3 +284,42 @@ func allLockedAccess(as []GlobalAccess) bool {
 }
 
 func refLike(g *ssa.Global) bool { return refTypeDeep(elemOfPointer(g)) }
+
+// dependencyTypeIn: the type is, points to, or contains a named struct/interface type declared in a dependency (not the
+// standard library, not this module). Plain maps and slices of basic types and of standard-library types are data.
+func dependencyTypeIn(t types.Type, depth int) string {
+	if depth > 4 {
+		return ""
+	}
+	switch u := t.(type) {
+	case *types.Named:
+		if u.Obj().Pkg() != nil {
+			path := u.Obj().Pkg().Path()
+			if !isStdlib(path) && !strings.HasPrefix(path, ModulePath) {
+				switch u.Underlying().(type) {
+				case *types.Struct, *types.Interface:
+					return u.Obj().Pkg().Name() + "." + u.Obj().Name()
+				}
+			}
+		}
+		return dependencyTypeIn(u.Underlying(), depth+1)
+	case *types.Pointer:
+		return dependencyTypeIn(u.Elem(), depth+1)
+	case *types.Slice:
+		return dependencyTypeIn(u.Elem(), depth+1)
+	case *types.Array:
+		return dependencyTypeIn(u.Elem(), depth+1)
+	case *types.Map:
+		if d := dependencyTypeIn(u.Key(), depth+1); d != "" {
+			return d
+		}
+		return dependencyTypeIn(u.Elem(), depth+1)
+	case *types.Struct:
+		for i := 0; i < u.NumFields(); i++ {
+			if d := dependencyTypeIn(u.Field(i).Type(), depth+1); d != "" {
+				return d
+			}
+		}
+	}
+	return ""
+}
